@@ -123,6 +123,16 @@ def gen_case(draw, fmt="2a", f9=False, linkdir=False, foreign=False):
                      below_unversioned or not versioned)
 
     fill("", 0, True, False)
+    if not f9 and not foreign and draw(st.integers(0, 2)) == 0:
+        # a branch nested one level down, inside a versioned directory (the
+        # nested-tree test must look at the path, not at the basename)
+        entries.append(["vdir", "dir", True, None])
+        entries.append(["vdir/keep", "file", True, "keep"])
+        entries.append(["vdir/sub", "dir", not git, None])
+        if git:
+            entries.append(["vdir/sub/keep", "file", True, "keep"])
+        entries.append(["vdir/sub/nestedrepo", "branch", False,
+                        "git" if git else draw(st.sampled_from([fmt, "git"]))])
     if f9 and not any(e[1] == "branch" for e in entries):
         entries.append(["unk9", "dir", False, None])
         entries.append(["unk9/sub", "dir", False, None])
